@@ -703,7 +703,7 @@ def newick_family(run, replay):
         else:
             parts = hdr.get("case", "").split("-")
             seed, k = int(parts[1][1:]), int(parts[2][1:])
-            maxtips = 40 if hdr.get("tier", "quick") == "quick" else 120
+            maxtips = 40 if hdr.get("tier", "quick") == "quick" else 80
             vk.run_driver(run, ["nw", "--seed", str(seed), "--from", str(k), "--to", str(k + 1), "--maxtips", str(maxtips), "--out", p], p)
         r = vk.validate_trace(run, p, "TraceNewick.tla", cfg)
         collect(run, [r])
@@ -711,7 +711,7 @@ def newick_family(run, replay):
         run.samples += vk.sample_events(r["path"], 1)
         return vk.finish(run, rule="replay of one recorded case on the current /repo")
     newick_model(run, "C01", 7 if run.tier == "quick" else 9)
-    ncases, maxtips = (1600, 40) if run.tier == "quick" else (40000, 120)
+    ncases, maxtips = (1600, 40) if run.tier == "quick" else (12000, 80)
     shards = vk.NCPU
     per = math.ceil(ncases / shards)
 
